@@ -56,6 +56,11 @@ OPS = {
 
 def main():
     payload = json.loads(sys.stdin.read())
+    if payload.get("prelude", True):
+        import os as _os
+        sys.path.insert(0, _os.path.dirname(_os.path.abspath(__file__)))
+        from prelude import run_prelude
+        run_prelude()
     res = {"cpp": None, "cases": [], "bytes": []}
     try:
         cppkernel.inject()
@@ -85,6 +90,22 @@ def main():
                 a = outcome(lambda: OPS[name](p))
                 b = outcome(lambda: OPS[name](t))
                 out["ops"][name] = {"packed": a, "plain": b}
+            # histories on the same objects: packing reads its argument only, the packed tensor does not alias it, packing the
+            # SAME object again after an in-place update packs the new values, unpacking twice gives the same tensor and leaves
+            # the payload untouched, and the unpacked result can be modified without touching the payload
+            keep = t.clone()
+            payload0 = p._data.clone()
+            h = {"input_unchanged": bool(torch.equal(t, keep))}
+            t2 = t.clone()  # a private, contiguous object we are allowed to modify
+            p_a = PackedTensor.pack(t2, bits)
+            t2.add_(1).remainder_(2 ** bits)
+            h["packed_kept_after_input_update"] = bool(torch.equal(p_a.unpack(), keep))
+            p_b = PackedTensor.pack(t2, bits)
+            h["repack_sees_update"] = bool(torch.equal(p_b.unpack(), t2))
+            u1 = p.unpack()
+            u1.add_(1)
+            h["payload_kept_after_unpacked_update"] = bool(torch.equal(p._data, payload0)) and bool(torch.equal(p.unpack(), keep))
+            out["history"] = h
             if case.get("dispatch"):
                 d = p.detach()
                 out["detach"] = {"cls": type(d).__name__, "value": outcome(lambda: d.unpack())}
